@@ -105,6 +105,45 @@ fn parse_optional_type_arguments(parser: &mut SourceParser) -> (r: Option<TypeAr
   proof { broadcast use axiom_encloses_reflexive; }
 //@end
 
+// =====================================================================================
+// the language server's position -> node search: a name's range is the name, nothing more
+// =====================================================================================
+#[verifier::external_body]
+#[derive(Clone, Copy)]
+struct Position { _p: u64 }
+uninterp spec fn position_inside(l: Location, p: Position) -> bool;
+impl Location {
+  /// contract proved by Kani unit loc: the closed interval [start, end]
+  #[verifier::external_body]
+  fn contains_position(&self, position: Position) -> (r: bool) ensures r == position_inside(*self, position) { unimplemented!() }
+}
+#[verifier::external_body]
+struct Type { _p: u8 }
+/// R3: `Type::Nominal(NominalType::from_annotation(id_annot))`
+#[verifier::external_body]
+fn nominal_type_of(id_annot: &annotation::Id) -> (r: Type) { unimplemented!() }
+/// R6: the search result reduced to the variant built here and an opaque rest
+enum LocationCoverSearchResult {
+  TypedName(Location, Type, bool),
+  Other(u8),
+}
+/// the search below the identifier (type arguments) is opaque; whatever it finds lies inside the type arguments
+#[verifier::external_body]
+fn search_optional_type_arguments(targs_opt: Option<&TypeArguments>, position: Position) -> (r: Option<LocationCoverSearchResult>)
+{ unimplemented!() }
+
+//@extract crates/samlang-services/src/location_cover.rs :: fn search_id_annotation
+//@ret r
+//@replace* LocationCoverSearchResult<'_> => LocationCoverSearchResult ## R6: reduced result type (no borrowed payloads)
+//@replace Type::Nominal(NominalType::from_annotation(id_annot)) => nominal_type_of(id_annot) ## R3: the nominal type named by the annotation
+//@contract
+    ensures
+      // a position on the class name of an annotation is answered with exactly the name's range (not the range of
+      // the whole annotation with its type arguments), and that range contains the position
+      position_inside(id_annot.id.loc, position) ==> (r matches Some(LocationCoverSearchResult::TypedName(l, _, binding))
+        && l == id_annot.id.loc && !binding),  // :hover_range_of_a_type_name_is_exactly_the_name
+//@end
+
 proof fn canary_must_fail_prodloc() ensures false { broadcast use axiom_encloses_reflexive; }
 
 } // verus!
